@@ -715,6 +715,8 @@ func famC06(e *emitter, g *gen.G, thorough bool) {
 				b := make([]byte, g.R.Intn(20))
 				g.R.Read(b)
 				vals = append(vals, b)
+			case (c == 7 || c == 8) && len(conts) > 0 && g.R.Intn(2) == 0: // the very slice / map sent earlier
+				vals = append(vals, conts[g.R.Intn(len(conts))])
 			case c == 7:
 				l := g.Value(reflect.TypeOf([]int32{}), 0).Interface()
 				vals = append(vals, l)
@@ -729,8 +731,6 @@ func famC06(e *emitter, g *gen.G, thorough bool) {
 				}
 			case c == 9 && len(ptrs) > 0: // the very object sent earlier
 				vals = append(vals, ptrs[g.R.Intn(len(ptrs))])
-			case c == 7 && len(conts) > 0 && g.R.Intn(2) == 0: // the very slice / map sent earlier
-				vals = append(vals, conts[g.R.Intn(len(conts))])
 			case c == 10:
 				vals = append(vals, g.Time())
 			case c == 11:
